@@ -1,4 +1,5 @@
 import FalconModel.AsgiStreamFixed
+import FalconModel.StreamFault
 open AsF
 def hexD (n : Nat) : Char := if n < 10 then Char.ofNat (48+n) else Char.ofNat (87+n)
 def toHex (bs : Bytes) : String := if bs.isEmpty then "-" else String.ofList (bs.flatMap fun b => [hexD (b.toNat/16), hexD (b.toNat%16)])
@@ -32,6 +33,15 @@ def step (s : S) (line : String) : S × String :=
   | ["iter", k] => let (o, s) := iterate s k.toNat!; (s, showOut o s)
   | ["exhaust"] => let (o, s) := exhaust s; (s, showOut o s)
   | ["close"] => let s := close s; (s, "unit" ++ s!" tell={s.pos} eof={eof s} awaited={s.awaited}")
+  -- an operation whose j-th receive() (inside the operation) raised / was cancelled while parked (Af.withFault)
+  | "fault" :: j :: op =>
+    let f : S → Out × S := match op with
+      | ["read", n] => fun s => read s (if n == "none" then none else n.toInt?)
+      | ["readall"] => readall
+      | ["iter", k] => fun s => iterate s k.toNat!
+      | _ => exhaust
+    let (o, s) := Af.withFault f s j.toNat!
+    (s, (match o with | .blocked => "fault" | _ => "nofault") ++ s!" tell={s.pos} eof={eof s} awaited={s.awaited}")
   | _ => (s, "bad-op")
 partial def loop (h : IO.FS.Stream) (s : S) : IO Unit := do
   let line ← h.getLine
